@@ -47,6 +47,7 @@ structure PErr where
   idx : Int
   trace : List (Bytes × Int)    -- (file, at byte), innermost first as OccurredInFile appends them
   acc : List (String × Bytes) := []   -- file accesses observed before the error, newest first
+  panic : Bool := false               -- not an error value at all: the Go code would dereference nil here
   deriving Repr, Inhabited
 
 inductive PFault where
@@ -208,10 +209,10 @@ def Core.liveTraceFor (c : Core) (fid : Nat) : List (Bytes × Int) :=
 
 /-- Directive.KeywordError, then scanProject's deferred AddIncludeTraceToError (only if the error has no trace yet) -/
 def Core.dirError (c : Core) (d : Dir) (msg : String) : PErr :=
-  ⟨msg, d.file, d.kwBegin, if d.trace.isEmpty then c.liveTraceFor d.fid else d.trace, c.accesses⟩
+  ⟨msg, d.file, d.kwBegin, if d.trace.isEmpty then c.liveTraceFor d.fid else d.trace, c.accesses, false⟩
 
 /-- core.japiError: located in the current scanner's file; the live trace is added by scanProject's defer -/
-def Core.japiError (c : Core) (msg : String) (idx : Int) : PErr := ⟨msg, c.current.name, idx, c.liveTrace, c.accesses⟩
+def Core.japiError (c : Core) (msg : String) (idx : Int) : PErr := ⟨msg, c.current.name, idx, c.liveTrace, c.accesses, false⟩
 
 /-- processCurrentDirective -/
 def Core.processCurrent (c : Core) : Except PFault Core :=
@@ -352,11 +353,11 @@ def joinDir (includer : Bytes) (name : Bytes) : Bytes :=
   joinSegs (cleanSegs (dir ++ splitOn47 name))
 
 def lexErr (fs : FileScan) (l : Lexeme) (msg : String) (c : Core) : PFault :=
-  .err ⟨msg, fs.name, l.b, c.liveTrace, c.accesses⟩
+  .err ⟨msg, fs.name, l.b, c.liveTrace, c.accesses, false⟩
 
 def scanFault (c : Core) (f : Fault) : PFault :=
   match f with
-  | .err m i => .err ⟨m.render, c.current.name, i, c.liveTrace, c.accesses⟩
+  | .err m i => .err ⟨m.render, c.current.name, i, c.liveTrace, c.accesses, false⟩
   | .panic s => .panic s
   | .fuel => .fuel
 
